@@ -9,7 +9,11 @@ A template is ordinary text (Rust) with directive blocks:
   //@@ spec                           (lines inserted between signature and body)
   //@@ prologue                       (lines inserted right after the body's opening brace)
   //@@ after: <anchor tokens>         (lines inserted after the unique occurrence of the anchor)
+  //@@ after_all: <tokens> ==> <text> (text inserted after EVERY occurrence, zero or more: ghost arguments)
   //@@ before: <anchor tokens>
+  //@@ before_stmt: <anchor tokens>   (lines inserted before the statement that contains the anchor)
+  //@@ closure_spec: <tokens ending in the closure's |params|> ==> -> (r: T) ensures ...
+                                      (wraps the closure body in braces and gives it a contract)
   //@@ end
 
   //@@ slice file=<rel> fn=<name> [impl=..] name=<label>
@@ -31,7 +35,7 @@ import re
 from . import extract, rtok
 from .extract import LostAnchor, Piece
 
-ALWAYS_STRIP = ['tracing', 'derive', 'builder', 'serde', 'allow', 'doc']
+ALWAYS_STRIP = ['tracing', 'derive', 'builder', 'serde', 'allow', 'doc', 'default']
 DIRECTIVE = re.compile(r'^\s*//@@\s*(\w+)\s*:?\s*(.*)$')
 TAG = re.compile(r'//#\s*([\w.\-]+)')
 
@@ -91,7 +95,52 @@ def _apply_common(piece, blk):
         piece.strip_word(w, 'strip_' + w)
     for frm, to, need in blk.get('rewrites', []):
         piece.rewrite_all(frm, to, min_count=1 if need else 0)
+    for anchor, txt in blk.get('after_all', []):
+        hits, n = piece.find(anchor, unique=False)
+        for h in hits:
+            piece.insert_after(h + n - 1, txt, 'ghost_arg')
+    for anchor, spec in blk.get('closure_specs', []):
+        # anchor ends with the closing `|` of a closure's parameter list; the closure is the last
+        # argument of a call: its body extends to the `)` matching the `(` that precedes the closure
+        hits, n = piece.find(anchor, what='closure_spec')
+        s = piece.src.s
+        bar2 = hits[0] + n - 1
+        assert s[bar2].text in ('|', '||'), 'closure_spec anchor must end with |'
+        k = bar2 - 1 if s[bar2].text == '|' else bar2
+        while s[bar2].text == '|' and s[k].text != '|':
+            k -= 1
+        if k - 1 >= 0 and s[k - 1].text == 'move':
+            k -= 1
+        opener = k - 1
+        if s[opener].text != '(':
+            raise LostAnchor(f'{piece.label}: closure_spec `{anchor}`: closure is not the first argument of a call')
+        closer = rtok.match_close(s, opener)
+        piece.insert_after(bar2, ' ' + spec + ' {', 'closure_spec')
+        piece.insert_before(closer, '}', 'closure_spec')
+        piece.counts['closure_spec'] -= 1
     for where, anchor, lines in blk.get('anchored', []):
+        if where == 'before_stmt':
+            hits, n = piece.find(anchor, what=where)
+            s = piece.src.s
+            k = hits[0]
+            depth = 0
+            while k > piece.a:
+                t = s[k - 1].text
+                if t in (')', ']', '}') and depth == 0 and t == '}':
+                    break
+                if t in (')', ']'):
+                    depth += 1
+                elif t in ('(', '['):
+                    if depth == 0:
+                        break
+                    depth -= 1
+                elif t == '}':
+                    break
+                elif t in (';', '{') and depth == 0:
+                    break
+                k -= 1
+            piece.insert_before(k, '\n' + '\n'.join(lines) + '\n')
+            continue
         hits, n = piece.find(anchor, what=where)
         txt = '\n' + '\n'.join(lines) + '\n'
         if where == 'after':
@@ -227,7 +276,10 @@ def generate(repo, template_text, variables=None):
             elif d in ('spec', 'prologue', 'epilogue', 'header'):
                 blk[d] = []
                 section = blk[d]
-            elif d in ('after', 'before'):
+            elif d == 'closure_spec':
+                frm, to = rest.split('==>')
+                blk.setdefault('closure_specs', []).append((frm.strip(), to.strip()))
+            elif d in ('after', 'before', 'before_stmt'):
                 lst = []
                 blk['anchored'].append((d, rest, lst))
                 section = lst
@@ -236,6 +288,9 @@ def generate(repo, template_text, variables=None):
                 need = to.strip().startswith('!')
                 to = to.strip()[1:].strip() if need else to.strip()
                 blk['rewrites'].append((frm.strip(), to, need))
+            elif d == 'after_all':
+                frm, to = rest.split('==>')
+                blk.setdefault('after_all', []).append((frm.strip(), to.strip()))
             elif d in ('strip', 'keep_attrs', 'from', 'through'):
                 blk[d] = rest
             elif d in ('through_close', 'inner'):
